@@ -131,6 +131,18 @@ def names_body(ctx, case):
         got = np.column_stack(arr) if unpack else arr
         if got.shape != (len(rows), 2) or not np.array_equal(got, np.array(rows)):
             raise Violation(f"{spelled!r} does not return the content of its shipped file {os.path.basename(path)}")
+        # what a caller does with the returned arrays must not leak into later loads of the same name
+        for a in (arr if unpack else (arr,)):
+            try:
+                a[...] = np.nan
+            except (ValueError, TypeError):
+                pass                          # a read-only result is fine
+        again = load_dataset(spelled, unpack_dataset_columns=unpack)
+        check_bundled(spelled, again, unpack)
+        got2 = np.column_stack(again) if unpack else again
+        if got2.shape != (len(rows), 2) or not np.array_equal(got2, np.array(rows)):
+            raise Violation(f"{spelled!r}: after the caller overwrote the returned array in place, loading the dataset "
+                            f"again no longer returns the shipped data")
         ctx.record(case, ["bundled", "variant:" + case["variant"], f"unpack={unpack}"], True)
         return
     payload = payload_for(name)
@@ -215,6 +227,67 @@ def metadata_body(ctx, case):
     ctx.record(dict(sample=dict(list(meta.items())[:2])), ["metadata-sample"], True)
 
 
+# ---- where the cache lives -----------------------------------------------------------------------------------------------
+
+def home_cases(ctx, shard, nshards):
+    names = [n for t, n in all_names() if t != "sandvine.md"]
+    picks = [names[0], names[len(names) // 3], names[2 * len(names) // 3], names[-1]]
+    idx = 0
+    for name in picks:
+        for style in ("absolute", "relative", "relative-nested", "tilde", "trailing-slash"):
+            if idx % nshards == shard:
+                yield dict(name=name, style=style)
+            idx += 1
+
+
+def home_body(ctx, case):
+    """'the cache lives under the directory named by TRAFFIC_WEAVER_DATA when it is set', however it is spelled"""
+    import tempfile
+    import shutil
+    name = case["name"]
+    payload = payload_for(name)
+    root = tempfile.mkdtemp(prefix="twv-home-")
+    saved = {k: os.environ.get(k) for k in ("TRAFFIC_WEAVER_DATA", "HOME")}
+    cwd = os.getcwd()
+    try:
+        home = os.path.join(root, "home")
+        work = os.path.join(root, "work")
+        os.makedirs(home)
+        os.makedirs(work)
+        os.chdir(work)
+        os.environ["HOME"] = home
+        value, expect = {
+            "absolute": (os.path.join(root, "abs-cache"), os.path.join(root, "abs-cache")),
+            "relative": ("rel-cache", os.path.join(work, "rel-cache")),
+            "relative-nested": (os.path.join("project-data", "tw"), os.path.join(work, "project-data", "tw")),
+            "tilde": (os.path.join("~", "tw-cache"), os.path.join(home, "tw-cache")),
+            "trailing-slash": (os.path.join(root, "slash-cache") + os.sep, os.path.join(root, "slash-cache")),
+        }[case["style"]]
+        os.environ["TRAFFIC_WEAVER_DATA"] = value
+        env = None
+        out, sim = load_remote(name, False, True, payload, env)
+        if isinstance(out, Exception):
+            raise Violation(f"{name!r} with TRAFFIC_WEAVER_DATA={value!r}: {type(out).__name__}: {out}")
+        inside = rs.tree(expect) if os.path.isdir(expect) else []
+        everything = [p for p in rs.tree(root)]
+        outside = [p for p in everything if not os.path.join(root, p).startswith(expect + os.sep)]
+        if len(inside) != 1 or outside:
+            raise Violation(f"TRAFFIC_WEAVER_DATA={value!r} (cwd {work}): expected exactly one cache file under {expect}, "
+                            f"found {inside} there and {outside} elsewhere")
+        got_home = base.get_data_home()
+        if os.path.realpath(got_home) != os.path.realpath(expect):
+            raise Violation(f"get_data_home() = {got_home!r} for TRAFFIC_WEAVER_DATA={value!r}, expected {expect!r}")
+    finally:
+        os.chdir(cwd)
+        for k, v in saved.items():
+            if v is None:
+                os.environ.pop(k, None)
+            else:
+                os.environ[k] = v
+        shutil.rmtree(root, ignore_errors=True)
+    ctx.record(case, ["home:" + case["style"]], True)
+
+
 # ---- mixed spellings, unknown names -----------------------------------------------------------------------------------
 
 @st.composite
@@ -288,6 +361,8 @@ SUBCHECKS = [
                "downloads its own file, refuses a wrong checksum, caches under TRAFFIC_WEAVER_DATA"),
     Sub("metadata", "enum", metadata_body, cases=metadata_cases, shards=1, exhaustive=True,
         clause="no two datasets share a remote file, URL, checksum or cache slot"),
+    Sub("data_home", "enum", home_body, cases=home_cases, shards=4, exhaustive=True,
+        clause="the cache lives under the directory named by TRAFFIC_WEAVER_DATA (absolute, relative, ~, trailing /)"),
     Sub("spellings", "hyp", spelling_body, strategy=spelling_case, quick=150, thorough=2000,
         clause="mixed '-'/'_' spellings resolve to the same dataset"),
     Sub("unknown", "hyp", unknown_body, strategy=unknown_case, quick=200, thorough=2000,
